@@ -2,7 +2,9 @@
     (harness/cmd/c02) drives ONE TPM object through a history (several
     sub-histories separated by Reset / DoNotUse_ResetNoInit) and records after
     EVERY command what the implementation shows; [check] replays the history
-    on the model and compares step by step. *)
+    on the model and compares step by step.  In a [CConc] case several objects
+    are driven at the same time (one goroutine each) and share the pool of
+    hashers; the recorded hasher operations are replayed on Model/TPMPool.v. *)
 From Coq Require Import Strings.Byte.
 From CSS Require Import Lib.Base Lib.Cases Model.TPM Model.TPMSlices Model.TPMPool.
 
